@@ -124,6 +124,81 @@ def _inheritance_by_evaluation(ctx, ck, config_cls, cfg) -> bool:
     return True
 
 
+def _use_by_evaluation(ctx, ck, inv, mv_node) -> bool:
+    """K7 by abstract execution (sa/axinterp.py): InverseOperator.mv is evaluated on an inverse holding a captured configuration
+    made of four distinct objects (with and without a preconditioner among the options); the calls of lineax.linear_solve
+    and jax.debug.callback are recorded.  The solve must receive the captured solver and throw flag themselves, and options
+    that hold the captured options in a *new* dictionary; the callback must be the captured one.  Returns True when decided."""
+    from ..axinterp import Interp, Obj, Opaque, PyStub, Raised, Undecided, UNK
+
+    world, table = ctx.world, ctx.table
+    state_cls = table.find(f'{CONFIG}.ConfigState')
+    generic = table.find('furax._base.dense.DenseBlockDiagonalOperator')
+    if state_cls is None or generic is None:
+        return False
+    names = [f.name for f in table.fields(state_cls)]
+    if set(names) != {'solver', 'solver_throw', 'solver_options', 'solver_callback'}:
+        return False
+    problems: list[str] = []
+    for with_precond in (False, True):
+        stubs = {n: _named_stub(PyStub, f'captured.{n}') for n in names}
+        options = {'option': _named_stub(PyStub, 'captured.option')}
+        if with_precond:
+            options['preconditioner'] = _named_stub(PyStub, 'captured.preconditioner')
+        stubs['solver_options'] = options
+        kept = dict(options)
+        cfg = Obj(state_cls, dict(stubs))
+        cfg.attrs['__record_fields__'] = tuple(names)
+        solution = PyStub()
+        solution.value = Opaque('solution.value')
+        it = Interp(world, table, budget=40_000)
+        it.watch_externals = {'lineax.linear_solve': solution, 'jax.debug.callback': None}
+        op = Obj(inv, {'operator': Obj(generic, {'name': 'A'}), 'config': cfg})
+        what = 'mv of a lazy inverse' + (' (with a preconditioner among the captured options)' if with_precond else '')
+        try:
+            it.call_method(op, 'mv', Opaque('x'))
+        except Raised as exc:
+            problems.append(f'{what} raises {exc.name}')
+            continue
+        except Undecided as exc:
+            ck.note(f'K7: {what} could not be evaluated: {exc}' + (f' [{it.degraded[0]}]' if it.degraded else ''))
+            return False
+        if it.degraded:
+            ck.note(f'K7: {what} could not be evaluated: {it.degraded[0]}')
+            return False
+        solves = [c for c in it.external_calls if c[0] == 'lineax.linear_solve']
+        if len(solves) != 1:
+            ck.note(f'K7: {what} calls lineax.linear_solve {len(solves)} times: not decided by evaluation')
+            return False
+        _p, args, kw = solves[0]
+        pos = dict(zip(('operator', 'vector', 'solver'), args))
+        solver = kw.get('solver', pos.get('solver'))
+        if solver is not stubs['solver']:
+            problems.append(f'{what}: the solve does not receive the captured solver' + (' (no solver is passed: lineax picks its default)' if solver is None else ''))
+        throw = kw.get('throw', _MISSING19)
+        if throw is not stubs['solver_throw']:
+            problems.append(f'{what}: the solve receives throw={"lineax\'s default" if throw is _MISSING19 else repr(throw)} instead of the captured solver_throw')
+        opts = kw.get('options')
+        if not isinstance(opts, dict):
+            problems.append(f'{what}: the solve does not receive the captured options')
+        else:
+            if opts is options:
+                problems.append(f'{what}: the solve receives the captured options dictionary itself (and may tag its preconditioner in place), not a copy')
+            if opts.get('option') is not kept['option'] or set(opts) != set(kept):
+                problems.append(f'{what}: the options given to the solve are not the captured ones')
+        if options != kept or any(options[k_] is not kept[k_] for k_ in kept):
+            problems.append(f'{what} changes the captured options in place')
+        cbs = [c for c in it.external_calls if c[0] == 'jax.debug.callback']
+        if cbs and (not cbs[0][1] or cbs[0][1][0] is not stubs['solver_callback']):
+            problems.append(f'{what}: the callback is not the captured solver_callback')
+    ck.expect('K7', not problems, mv_node, 'mv hands the captured solver, throw flag, a fresh copy of the captured options and the captured callback to the solve (evaluated with and without a preconditioner)',
+              f'{problems[0] if problems else ""} ({len(problems)} deviations)', instance='captured configuration used (by evaluation)', semantic=True)
+    return True
+
+
+_MISSING19 = object()
+
+
 def _named_stub(PyStub, name: str):
     st = PyStub()
     st.label = name
@@ -522,11 +597,13 @@ def run(ctx, ck) -> None:
             excluded = None
             if isinstance(v, ast.Call) and world.qualify(cfg, v.func) in ('dataclasses.field',):
                 for kw in v.keywords:
-                    if kw.arg in ('compare', 'hash') and isinstance(kw.value, ast.Constant) and kw.value.value is False:
+                    # (hash=False alone is harmless: equal configurations still hash alike, and equality still sees the field)
+                    if kw.arg == 'compare' and isinstance(kw.value, ast.Constant) and kw.value.value is False:
                         excluded = kw.arg
-            ck.expect('K5', excluded is None, st, f'setting `{ast.unparse(st.target)}` takes part in equality and hashing of the configuration',
-                      f'setting `{ast.unparse(st.target)}` is excluded from {excluded}: two captured configurations that differ only in it compare equal, so a jit cache entry '
-                      'traced for one lazy inverse is replayed for another (the second inverse uses the first one\'s setting)', instance=f'field {ast.unparse(st.target)} compared', nontrivial=False)
+            ck.expect('K5', excluded is None, st, f'setting `{ast.unparse(st.target)}` takes part in the equality of the configuration',
+                      f'setting `{ast.unparse(st.target)}` is declared with compare=False: two captured configurations that differ only in it compare equal, so a jit cache entry '
+                      'traced for one lazy inverse is replayed for another (the second inverse uses the first one\'s setting)', instance=f'field {ast.unparse(st.target)} compared', nontrivial=False,
+                      semantic=True)  # the presence of the keyword decides
     ck.floor('K5', nfields, 4, 'configuration settings')
     for module in world.modules.values():
         for node in ast.walk(module.tree):
@@ -656,6 +733,8 @@ def run(ctx, ck) -> None:
     mv = table.resolve(inv, 'mv')
     if mv is None or not isinstance(mv.node, ast.FunctionDef):
         raise AnalysisError('anchor vanished: InverseOperator.mv')
+    k7_decided = _use_by_evaluation(ctx, ck, inv, mv.node)
+    k7_start = len(ck.obs)
     self_mv = mv.node.args.args[0].arg
     solve_calls = [n for n in ast.walk(mv.node) if isinstance(n, ast.Call) and world.qualify(module_of(n), n.func) == 'lineax.linear_solve']
     ck.floor('K7', len(solve_calls), 1, 'linear_solve call sites in InverseOperator.mv')
@@ -700,6 +779,9 @@ def run(ctx, ck) -> None:
         t = term(cb.args[0], env_cb) if cb.args else None
         ck.expect('K7', t == ('attr', cfg_t, 'solver_callback'), cb, 'callback comes from self.config',
                   f'the solver callback is {show(t)} instead of the captured self.config.solver_callback', instance='callback')
+    if k7_decided:
+        # the written form of the solver call is kept only where it confirms
+        ck.obs[k7_start:] = [o for o in ck.obs[k7_start:] if o.status == 'ok']
     # readers of the active configuration
     graph = CallGraph(world, table)
     ctx.cache['callgraph'] = graph
